@@ -15,7 +15,8 @@ Record entry := mkEntry {
   e_has_try : bool;                 (* the body is a function-try-block *)
   e_chain : chain;                  (* its handlers, in order *)
   e_calls : list string;            (* calls made OUTSIDE any try block (all calls, when has_try = false) *)
-  e_body_returns : bool             (* every path of BODY ends in return (or in a [[noreturn]] call) *)
+  e_body_returns : bool;            (* every path of BODY ends in return (or in a [[noreturn]] call) *)
+  e_ret_ptr : bool                  (* the entry returns a pointer (char*), not an int code *)
 }.
 
 Inductive outcome := Returns (v : Z) | Throws (e : exn).
@@ -24,6 +25,7 @@ Inductive outcome := Returns (v : Z) | Throws (e : exn).
 Inductive result :=
 | Returned (v : Z)                       (* an int (or pointer) value *)
 | ReturnedCode (c : ecode)               (* one of the error enumerators *)
+| ReturnedNull                           (* a null pointer, from an entry returning a pointer *)
 | Escaped (e : exn)                      (* a C++ exception unwinds into C code: undefined behaviour *)
 | Undefined (why : string).              (* flows off the end / returns an unknown expression *)
 
@@ -40,7 +42,7 @@ Definition effect_of (a : action) : list effect :=
   end.
 
 Definition run_clause (cl : clause) : result * list effect :=
-  (if c_returns cl then match c_ret cl with Code c => ReturnedCode c | CodeUnknown s => Undefined s end
+  (if c_returns cl then match c_ret cl with Code c => ReturnedCode c | NullPtr => ReturnedNull | CodeUnknown s => Undefined s end
    else Undefined "handler without return",
    flat_map effect_of (c_actions cl)).
 
@@ -71,6 +73,7 @@ Definition admissible (en : entry) (o : outcome) : Prop :=
 Definition clean_action (ret : rcode) (a : action) : bool :=
   match a, ret with
   | Notify (Code c), Code r => ecode_eqb c r
+  | Notify (Code _), NullPtr => true
   | ResetTimeout, _ | ResetDetTimeout, _ | What, _ => true
   | _, _ => false
   end.
@@ -80,7 +83,7 @@ Definition notifies (cl : clause) : bool :=
 
 Definition clean_clause (cl : clause) : bool :=
   c_returns cl && forallb (clean_action (c_ret cl)) (c_actions cl) && notifies cl
-  && match c_ret cl with Code _ => true | _ => false end.
+  && match c_ret cl with Code _ | NullPtr => true | _ => false end.
 
 Definition clean_chain (ch : chain) : bool := forallb clean_clause ch.
 
@@ -93,8 +96,14 @@ Definition resets_before_notify (cl : clause) : bool :=
   end.
 
 (* an entry is TIGHT when nothing can escape it: full chain, or no try and nothing that can throw *)
+(* an int entry reports errors as enumerators, a pointer entry as a null pointer (never the converse: a null
+   pointer converted to int would read as 0 = success) *)
+Definition ret_kind_ok (ptr : bool) (cl : clause) : bool :=
+  match c_ret cl with Code _ => negb ptr | NullPtr => ptr | CodeUnknown _ => false end.
+
 Definition tight (en : entry) : bool :=
   if e_has_try en then has_ellipsis (e_chain en) && clean_chain (e_chain en) && no_unknown (e_chain en)
+                       && forallb (ret_kind_ok (e_ret_ptr en)) (e_chain en)
   else match e_calls en with [] => true | _ => false end.
 
 Definition str_mem (s : string) (l : list string) : bool := existsb (String.eqb s) l.
@@ -108,17 +117,22 @@ Qed.
 
 (* ---- generic theorems ------------------------------------------------------------------------- *)
 
+Definition error_result (r : result) (c : ecode) : Prop := r = ReturnedCode c \/ r = ReturnedNull.
+
 Lemma clean_clause_result : forall cl, clean_clause cl = true ->
-  exists c, fst (run_clause cl) = ReturnedCode c /\ In (E_notify c) (snd (run_clause cl)).
+  exists c, error_result (fst (run_clause cl)) c /\ In (E_notify c) (snd (run_clause cl)).
 Proof.
   intros cl H. unfold clean_clause in H.
   apply andb_prop in H as [H H4]. apply andb_prop in H as [H H3]. apply andb_prop in H as [H1 H2].
-  unfold run_clause. rewrite H1. destruct (c_ret cl) as [c|s] eqn:R; [|discriminate].
-  exists c; split; [reflexivity|]. cbn [snd].
   unfold notifies in H3. apply existsb_exists in H3 as [a [Ha Hn]].
   rewrite forallb_forall in H2. specialize (H2 a Ha).
-  destruct a as [[c'|s]| | | |]; try discriminate. cbn in H2. apply ecode_eqb_eq in H2; subst c'.
-  apply in_flat_map. exists (Notify (Code c)); split; [assumption | left; reflexivity].
+  unfold run_clause, error_result. rewrite H1. cbn [fst snd].
+  destruct a as [[c'| |s]| | | |]; try discriminate;
+  destruct (c_ret cl) as [c| |s'] eqn:R; try discriminate.
+  - cbn in H2. apply ecode_eqb_eq in H2; subst c'. exists c; split; [now left|].
+    apply in_flat_map. exists (Notify (Code c)); split; [assumption | left; reflexivity].
+  - exists c'; split; [now right|].
+    apply in_flat_map. exists (Notify (Code c')); split; [assumption | left; reflexivity].
 Qed.
 
 (* NEVER ESCAPES, generically: a tight entry turns every admissible outcome into a returned value;
@@ -127,12 +141,12 @@ Qed.
 Theorem tight_never_escapes : forall en, tight en = true -> forall o, admissible en o ->
   match o with
   | Returns v => run_entry en o = (Returned v, [])
-  | Throws e => exists c, fst (run_entry en o) = ReturnedCode c /\ In (E_notify c) (snd (run_entry en o))
+  | Throws e => exists c, error_result (fst (run_entry en o)) c /\ In (E_notify c) (snd (run_entry en o))
   end.
 Proof.
   intros en T o A. destruct o as [v|e]; [reflexivity|].
   unfold tight in T. unfold run_entry. destruct (e_has_try en) eqn:HT.
-  - apply andb_prop in T as [T T3]. apply andb_prop in T as [T1 T2].
+  - apply andb_prop in T as [T T4]. apply andb_prop in T as [T T3]. apply andb_prop in T as [T1 T2].
     destruct (handles_total _ T1 e) as [cl [Hh Hin]]. rewrite Hh.
     unfold clean_chain in T2. rewrite forallb_forall in T2. now apply clean_clause_result, T2.
   - cbn in A. rewrite HT in A. destruct A as [A|A]; [discriminate A|]. destruct (e_calls en); [now elim A | discriminate T].
